@@ -1041,3 +1041,196 @@ def last_component_of(f, fs, e, sep='/'):
         if len(others) == 1:
           return u(a.value.func.value)
   return None
+
+
+def param_values(callee, call):
+  """{parameter name: argument expression, or the default expression, or None} for a call of the function `callee`
+  (a method is assumed to be called on its instance).  None when the call uses * / ** or does not fit the signature."""
+  a = callee.node.args
+  if any(isinstance(x, ast.Starred) for x in call.args) or any(k.arg is None for k in call.keywords):
+    return None
+  pos = [x.arg for x in a.posonlyargs + a.args]
+  if pos and pos[0] in ('self', 'cls') and isinstance(call.func, ast.Attribute):
+    pos = pos[1:]
+  kwo = [x.arg for x in a.kwonlyargs]
+  if len(call.args) > len(pos) and not a.vararg:
+    return None
+  out = {p: None for p in pos + kwo}
+  nd = len(a.defaults)
+  allpos = [x.arg for x in a.posonlyargs + a.args]
+  for j, d in enumerate(a.defaults):
+    out[allpos[len(allpos) - nd + j]] = d
+  for x, d in zip(a.kwonlyargs, a.kw_defaults):
+    if d is not None:
+      out[x.arg] = d
+  for p, e in zip(pos, call.args):
+    out[p] = e
+  given = set(pos[:len(call.args)])
+  for k in call.keywords:
+    if k.arg in given or (k.arg not in out and not a.kwarg):
+      return None
+    if k.arg in out:
+      out[k.arg] = k.value
+  out.pop('self', None)
+  return out
+
+
+class Uninterpreted(Exception):
+  pass
+
+
+def content_eval(stmts, atom_content, atom_truth, tracked_of_return=None, may=False):
+  """Abstract evaluation of a straight-line-with-branches function body over *content sets*: each variable holds the set
+  of sources its value was built from.  `atom_content(expr)` names the sources an expression mentions by itself (variables
+  are added from the environment); `atom_truth(test, env)` decides a condition (True / False) or returns None when it
+  cannot; a condition that cannot be decided is accepted only if both branches leave the returned content the same.
+  With may=True an undecided condition takes both branches (union), which answers "may the result be built from X".
+  Returns the content set of the value returned (of `tracked_of_return(value)` when given), 'RAISE' when the path ends
+  in a raise, None when the end of the body is reached.  Raises Uninterpreted for any statement outside this fragment."""
+  MUT = ('update', 'extend', 'append', 'add', 'insert', 'setdefault', 'appendleft', 'extendleft')
+
+  def content(e, env):
+    # a value chosen by a condition: `a or b`, `a and b`, `a if c else b`
+    if isinstance(e, ast.BoolOp):
+      acc = set()
+      for i, v in enumerate(e.values):
+        tv = truth(v, env) if i < len(e.values) - 1 else None
+        stop = (tv is True) if isinstance(e.op, ast.Or) else (tv is False)
+        skip = (tv is False) if isinstance(e.op, ast.Or) else (tv is True)
+        if stop:
+          return acc | content(v, env)
+        if not skip:
+          acc |= content(v, env)
+      return acc
+    if isinstance(e, ast.IfExp):
+      tv = truth(e.test, env)
+      if tv is None:
+        return content(e.body, env) | content(e.orelse, env)
+      return content(e.body if tv else e.orelse, env)
+    out = set(atom_content(e) or ())
+    for x in ast.walk(e):
+      if isinstance(x, ast.Name) and isinstance(x.ctx, ast.Load) and x.id in env:
+        out |= env[x.id]
+    return out
+
+  def truth(t, env):
+    if isinstance(t, ast.UnaryOp) and isinstance(t.op, ast.Not):
+      v = truth(t.operand, env)
+      return None if v is None else not v
+    if isinstance(t, ast.BoolOp):
+      vs = [truth(v, env) for v in t.values]
+      if isinstance(t.op, ast.And):
+        return False if any(v is False for v in vs) else (None if any(v is None for v in vs) else True)
+      return True if any(v is True for v in vs) else (None if any(v is None for v in vs) else False)
+    return atom_truth(t, env)
+
+  def targets(t, val, env):
+    if isinstance(t, ast.Name):
+      env[t.id] = set(val)
+    elif isinstance(t, ast.Starred):
+      targets(t.value, val, env)
+    elif isinstance(t, (ast.Tuple, ast.List)):
+      for e in t.elts:
+        targets(e, val, env)
+    elif isinstance(t, ast.Subscript) and isinstance(t.value, ast.Name):
+      env[t.value.id] = env.get(t.value.id, set()) | set(val)
+    elif isinstance(t, ast.Attribute):
+      pass
+    else:
+      raise Uninterpreted('target `%s`' % u(t))
+
+  def run(stmts, env):
+    for st in stmts:
+      if isinstance(st, ast.Expr) and isinstance(st.value, ast.Constant) or isinstance(st, (ast.Pass, ast.Import, ast.ImportFrom, ast.Global, ast.Nonlocal, ast.Assert)):
+        continue
+      if isinstance(st, ast.Return):
+        if st.value is None:
+          return set()
+        v = tracked_of_return(st.value) if tracked_of_return else st.value
+        if v is None:
+          raise Uninterpreted('return value `%s`' % u(st.value))
+        return content(v, env)
+      if isinstance(st, ast.Raise):
+        return 'RAISE'
+      if isinstance(st, ast.If):
+        tv = truth(st.test, env)
+        if tv is None and may:
+          # may-analysis: both branches happen; a return in one of them is remembered and evaluation goes on with the other
+          e1, e2 = {k: set(v) for k, v in env.items()}, {k: set(v) for k, v in env.items()}
+          r1, r2 = run(st.body, e1), run(st.orelse, e2)
+          for r in (r1, r2):
+            if isinstance(r, set):
+              pending.append(r)
+          live = [e for r, e in ((r1, e1), (r2, e2)) if r is None]
+          if not live:
+            return set() if any(isinstance(r, set) for r in (r1, r2)) else 'RAISE'
+          env.clear()
+          for e in live:
+            for k, v in e.items():
+              env[k] = env.get(k, set()) | v
+          continue
+        if tv is None:
+          e1, e2 = {k: set(v) for k, v in env.items()}, {k: set(v) for k, v in env.items()}
+          r1, r2 = run(st.body, e1), run(st.orelse, e2)
+          live = [(r, e) for r, e in ((r1, e1), (r2, e2)) if r != 'RAISE']
+          if not live:
+            return 'RAISE'
+          if len(live) == 2 and (r1 != r2 or e1 != e2):
+            raise Uninterpreted('condition `%s` (the branches differ)' % u(st.test))
+          r, e = live[0]
+          env.clear()
+          env.update(e)
+          if r is not None:
+            return r
+          continue
+        r = run(st.body if tv else st.orelse, env)
+        if r is not None:
+          return r
+      elif isinstance(st, (ast.Assign, ast.AnnAssign)):
+        if st.value is None:
+          continue
+        val = content(st.value, env)
+        for t in (st.targets if isinstance(st, ast.Assign) else [st.target]):
+          targets(t, val, env)
+      elif isinstance(st, ast.AugAssign):
+        if isinstance(st.target, ast.Name):
+          env[st.target.id] = env.get(st.target.id, set()) | content(st.value, env)
+      elif isinstance(st, ast.Expr) and isinstance(st.value, ast.Call):
+        c = st.value
+        if isinstance(c.func, ast.Attribute) and isinstance(c.func.value, ast.Name) and c.func.attr in MUT:
+          nm = c.func.value.id
+          env[nm] = env.get(nm, set()) | set().union(*[content(a, env) for a in list(c.args) + [k.value for k in c.keywords]] or [set()])
+        elif isinstance(c.func, ast.Attribute) and isinstance(c.func.value, ast.Name) and c.func.attr == 'clear':
+          env[c.func.value.id] = set()
+      elif isinstance(st, ast.For) and not st.orelse:
+        targets(st.target, content(st.iter, env), env)
+        before = None
+        for _ in range(4):         # to a fixed point
+          before = {k: set(v) for k, v in env.items()}
+          r = run(st.body, env)
+          if r not in (None, 'RAISE'):
+            raise Uninterpreted('return inside a loop')
+          for k, v in before.items():
+            env[k] = env.get(k, set()) | v
+          if env == before:
+            break
+      elif isinstance(st, ast.With):
+        r = run(st.body, env)
+        if r is not None:
+          return r
+      elif isinstance(st, ast.Try) and not st.handlers:
+        r = run(st.body, env)
+        run(st.finalbody, env)
+        if r is not None:
+          return r
+      elif isinstance(st, (ast.Continue, ast.Break)):
+        return None
+      else:
+        raise Uninterpreted('`%s`' % u(st)[:70])
+    return None
+  pending = []
+  res = run(list(stmts), {})
+  if may and pending:
+    out = set().union(*pending)
+    return out | res if isinstance(res, set) else out
+  return res
